@@ -149,6 +149,10 @@ class Incarnation:
         else:
             self.hold = Hold(node)
         self.stream.start()
+        if case.get("double_start"):
+            # start() called on a second leaf of the pipeline as well: Stream.start() walks upstream and reaches the source again,
+            # before the first poll has run - still one polling loop
+            self.probe.start()
 
     def new_batches(self):
         out = self.attempts[self.reported:]
@@ -585,6 +589,8 @@ def gen_case(rng):
             "refresh": rng.random() < 0.5, "nparts": nparts, "npart_cfg": None, "keys": rng.random() < 0.25}
     if rng.random() < 0.2:
         case["npart_cfg"] = rng.randint(1, nparts)
+    if rng.random() < 0.25:
+        case["double_start"] = True
     if rng.random() < 0.2:
         m = rng.choice([2, 3, 3, 4])
         case["tomb"] = [m, rng.randrange(m)]      # offsets in this residue class carry an empty value (unless last of their produce op)
